@@ -384,8 +384,9 @@ class Body:
       d = defaultdict(list)
       # map local -> place it is a &mut reference to (single def)
       refmut = {}
+      live = self.reachable_from(0)
       for bi, b in enumerate(self.blocks):
-        if b['cleanup']:
+        if b['cleanup'] or bi not in live:
           continue
         for si, s in enumerate(b['s']):
           if 'p' in s:
@@ -397,6 +398,8 @@ class Body:
               refmut[s['p']['l']] = rv['p']
       self._refmut = refmut
       for c in self.calls:
+        if c.bb not in live:
+          continue
         if c.dest is not None:
           d[c.dest['l']].append({'kind': 'call', 'bb': c.bb, 'idx': None, 'call': c, 'proj': c.dest.get('p'), 'line': c.line})
         # &mut arguments: the referent may be written by the callee
@@ -917,3 +920,139 @@ def flat_names(desc, out=None):
         if isinstance(x, tuple):
           flat_names(x, out)
   return out
+
+
+# --------------------------------------------------------------------------- precise origin tracing (E7)
+
+PASSTHROUGH_DEFAULT = [
+    r'<std::result::Result as std::ops::Try>::branch$', r'<std::option::Option as std::ops::Try>::branch$',
+    r'std::result::Result::(unwrap|expect|unwrap_or_default|unwrap_or|unwrap_or_else|ok|as_ref|as_mut|map_err|context|with_context)$',
+    r'std::option::Option::(unwrap|expect|unwrap_or_default|unwrap_or|unwrap_or_else|as_ref|as_mut|as_deref|as_deref_mut|ok_or|ok_or_else|take|cloned|copied)$',
+    r'std::ops::Deref(Mut)?::deref(_mut)?$', r' as std::ops::Deref(Mut)?>::deref(_mut)?$',
+    r'std::convert::AsRef::as_ref$', r'std::convert::AsMut::as_mut$', r'std::borrow::Borrow(Mut)?::borrow(_mut)?$',
+    r' as std::borrow::Borrow(Mut)?>::borrow(_mut)?$', r' as std::convert::As(Ref|Mut)>::as_(ref|mut)$',
+    r'std::clone::Clone::clone$', r' as std::clone::Clone>::clone$',
+    r'anyhow::Context::(context|with_context)$', r' as anyhow::Context>::(context|with_context)$',
+    r'snafu::ResultExt::(context|with_context)$', r' as snafu::ResultExt>::(context|with_context)$',
+    r'std::convert::Into::into$', r' as std::convert::Into>::into$',
+]
+
+
+class Origin:
+  __slots__ = ('kind', 'call', 'local', 'name', 'fields', 'const', 'agg', 'body')
+
+  def __init__(self, kind, body, call=None, local=None, name=None, fields=(), const=None, agg=None):
+    self.kind = kind
+    self.body = body
+    self.call = call
+    self.local = local
+    self.name = name
+    self.fields = tuple(fields)
+    self.const = const
+    self.agg = agg
+
+  def __repr__(self):
+    if self.kind == 'call':
+      return f"call:{self.call.name}@{self.call.line}" + (('.' + '.'.join(map(str, self.fields))) if self.fields else '')
+    if self.kind in ('param', 'upvar', 'var'):
+      return f"{self.kind}:{self.name}" + (('.' + '.'.join(map(str, self.fields))) if self.fields else '')
+    if self.kind == 'const':
+      return f"const:{self.const}"
+    if self.kind == 'agg':
+      return f"agg:{self.agg.get('adt') or self.agg.get('ak')}"
+    return self.kind
+
+  def key(self):
+    return repr(self)
+
+
+def _proj_fields(projs):
+  out = []
+  for e in projs or []:
+    if isinstance(e, dict) and 'f' in e:
+      out.append(str(e.get('n', e['f'])))
+    elif isinstance(e, dict) and 'v' in e:
+      out.append('v:' + e['v'])
+  return out
+
+
+def origins(body, op, passthrough=None, depth=0, _seen=None, fields=()):
+  """Precise backward trace of an operand (or place dict) to its terminal origins.
+  Walks through copies/moves/refs/casts, aggregate field selection and pass-through calls.
+  Terminal origins: call results, parameters (with field path), closure upvars, constants, aggregates."""
+  import re as _re
+  pts = passthrough if passthrough is not None else PASSTHROUGH_DEFAULT
+  if _seen is None:
+    _seen = set()
+  if 'l' in op:
+    place = op
+  elif 'k' in op:
+    return [Origin('const', body, const=op['k'])]
+  else:
+    place = op_place(op)
+    if place is None:
+      return [Origin('unknown', body)]
+  l = place['l']
+  pf = tuple(f for f in _proj_fields(place.get('p')) if not f.startswith('v:')) + tuple(fields)
+  key = (l, pf)
+  if key in _seen or depth > 40:
+    return []
+  _seen.add(key)
+  # closure environment
+  if body.kind in ('Closure', 'SyntheticCoroutineBody') and l == 1 and pf and pf[0].startswith('upvar:'):
+    return [Origin('upvar', body, local=l, name=pf[0][6:], fields=pf[1:])]
+  if 1 <= l <= body.argc:
+    ds = [d for d in body.defs().get(l, []) if d['kind'] == 'assign' and not d['proj']]
+    if not ds:
+      return [Origin('param', body, local=l, name=body.local_name(l), fields=pf)]
+  ds = [d for d in body.defs().get(l, []) if d['kind'] != 'callmut']
+  whole = [d for d in ds if not d['proj']]
+  partial = [d for d in ds if d['proj']]
+  out = []
+  # assignments to a sub-place that matches our field path
+  for d in partial:
+    dpf = tuple(f for f in _proj_fields(d['proj']) if not f.startswith('v:'))
+    if pf[:len(dpf)] == dpf and d['kind'] == 'assign':
+      out.extend(_origin_of_def(body, d, pf[len(dpf):], pts, depth, _seen))
+  if not whole and not out:
+    nm = body.local_name(l)
+    return [Origin('var' if nm else 'unknown', body, local=l, name=nm, fields=pf)]
+  for d in whole:
+    out.extend(_origin_of_def(body, d, pf, pts, depth, _seen))
+  return out
+
+
+def _origin_of_def(body, d, pf, pts, depth, seen):
+  import re as _re
+  if d['kind'] == 'call':
+    c = d['call']
+    nm = c.name or ''
+    tn = c.trait_fn or ''
+    if c.args and any(_re.search(p, nm) or _re.search(p, tn) for p in pts):
+      return origins(body, c.args[0], pts, depth + 1, seen, ())
+    return [Origin('call', body, call=c, fields=pf)]
+  rv = d['rv']
+  k = rv['k']
+  if k in ('use', 'cast'):
+    o = rv['o']
+    if 'k' in o:
+      return [Origin('const', body, const=o['k'])]
+    return origins(body, o, pts, depth + 1, seen, pf)
+  if k in ('ref', 'rawptr'):
+    return origins(body, rv['p'], pts, depth + 1, seen, pf)
+  if k == 'agg':
+    names = rv.get('fields')
+    if pf:
+      idx = None
+      if names and pf[0] in names:
+        idx = names.index(pf[0])
+      elif pf[0].isdigit() and int(pf[0]) < len(rv['ops']):
+        idx = int(pf[0])
+      if idx is not None and idx < len(rv['ops']):
+        return origins(body, rv['ops'][idx], pts, depth + 1, seen, pf[1:])
+    return [Origin('agg', body, agg=rv, fields=pf)]
+  if k == 'bin':
+    return [Origin('bin', body, agg=rv, fields=pf)]
+  if k == 'discr':
+    return [Origin('discr', body, agg=rv, fields=pf)]
+  return [Origin('unknown', body, fields=pf)]
